@@ -40,6 +40,8 @@ def constructed(rng):
             yield E.AddExpression(cls(C(3), col), E.MultiplyExpression(V("x"), cls(C(2), col)))
             yield cls(cls(C(4), col), not col)
     yield E.AddExpression(V("x"), V("x"))
+    for name in ("\u03b8", "\u03c0", "_t", "xy", "X1", "1", "\u00e9", "x'"):
+        yield E.AddExpression(E.MultiplyExpression(C(2), V(name)), E.PowerExpression(V(name), C(2)))
     yield E.AddExpression(E.NegateExpression(), C(1))
     yield E.MultiplyExpression(C(2), E.FactorialExpression(None, True))
     yield E.SgnExpression()
@@ -149,7 +151,12 @@ def retry_after_recursion_error(rec):
 def drive_tree(rec, root, rng, expr=True):
     nodes = S.nodes_preorder(root)
     # clone of the whole tree and of a few subtrees
-    c = root.clone()
+    try:
+        c = root.clone()
+    except RecursionError:
+        return
+    except Exception:
+        return   # decided (and reported) by the clone monitor
     if expr:
         behaviour(rec, root, c, rng)
     for n in rng.sample(nodes, min(3, len(nodes))):
